@@ -55,6 +55,19 @@ type Case struct {
 
 var tenants = []string{"a", "ab", "b1", "other", ""}
 
+// tenantsFor: the tenants observed under an override list: one per distinct way the list can treat a tenant
+// (listed exactly, matched by a glob, matched by both, by a later override, by none; the empty tenant once).
+func tenantsFor(ov []Override) []string {
+	switch {
+	case len(ov) == 0:
+		return []string{"a", ""}
+	case len(ov) == 2 && ov[0].Matcher == "glob":
+		return []string{"a", "ab", "b1", "other"}
+	default:
+		return []string{"a", "ab", "other"}
+	}
+}
+
 func (c Case) n() int {
 	s := 0
 	for _, z := range c.Zones {
@@ -185,7 +198,7 @@ func gen(minN, maxN, maxRF int, caches []int) iter.Seq[Case] {
 							}
 							for rf := 1; rf <= maxRF; rf++ {
 								for _, cs := range caches {
-									if !yield(Case{Zones: z, ShardSize: ss, Overrides: ov, ZAD: zad, RF: rf, CacheSize: cs}) {
+									if !yield(Case{Zones: z, ShardSize: ss, Overrides: ov, ZAD: zad, RF: rf, CacheSize: cs, Tenants: tenantsFor(ov)}) {
 										return
 									}
 								}
@@ -215,12 +228,18 @@ func smallSizes(zones []int, zad bool) []int {
 }
 
 // genSmall: second family, one tenant per case.
-func genSmall(minN, maxN, maxRF int, spns []int, nTenants int) iter.Seq[Case] {
+//
+// Without zone awareness all nodes form one zone: where the draws land depends on the number of nodes only, and
+// with RF 1 so does everything else. allZAD=false keeps two layouts per node count for it ([1,n-1], [1,1,n-2]).
+func genSmall(minN, maxN, maxRF int, spns []int, nTenants int, allZAD bool) iter.Seq[Case] {
 	return func(yield func(Case) bool) {
 		for n := minN; n <= maxN; n++ {
 			for _, z := range partsAtMost(n, 3) {
 				for _, zad := range []bool{false, true} {
 					if len(z) == 1 && zad {
+						continue
+					}
+					if zad && !allZAD && !(z[0] == 1 && (len(z) == 2 || z[1] == 1)) {
 						continue
 					}
 					for _, ss := range smallSizes(z, zad) {
@@ -415,6 +434,9 @@ func (k *checker) eval(c Case) {
 	if len(tns) == 0 {
 		tns = tenants
 	}
+	// with a cache of one entry the observation after another tenant was served is a second computation on the
+	// same instance anyway
+	again := !small && c.CacheSize != 1
 	nSeries := 24
 	if small {
 		nSeries = 8
@@ -423,7 +445,7 @@ func (k *checker) eval(c Case) {
 	for _, tn := range tns {
 		var seen []obs
 		seen = append(seen, shard(A, "computed", tn, false))
-		if !small {
+		if again {
 			seen = append(seen, shard(A, "computed again", tn, false))
 		}
 		// GetN: fills the cache; every replica must be inside the set the cache then holds.
@@ -564,7 +586,7 @@ func (c Case) base() string {
 
 func TestCheck(t *testing.T) {
 	// every sub-ring is 1000 short-lived sections per node: collect less often
-	defer debug.SetGCPercent(debug.SetGCPercent(400))
+	defer debug.SetGCPercent(debug.SetGCPercent(800))
 	r := vlib.New(t, "C21")
 	defer r.Finish()
 	minN := 3
@@ -574,9 +596,10 @@ func TestCheck(t *testing.T) {
 	sMaxN := vlib.Pick(r, 6, 7)
 	sMaxRF := vlib.Pick(r, 1, 2)
 	spns := []int{1, 2, 3}
-	nTen := vlib.Pick(r, 60, 200)
+	nTen := vlib.Pick(r, 40, 200)
+	allZAD := r.Thorough()
 	r.Rule(fmt.Sprintf("(1) production ring: every multiset of <= 3 zone sizes with %d..%d nodes x default shard size 1..n x 16 override lists (none; exact / glob / matcher type left out / glob with bad pattern + exact / overlapping exact + glob, "+
-		"override sizes from {1, n, n+1}) x zone awareness on/off x RF 1..%d x cache sizes %v; per configuration the tenants %q, each observed 5 times (computed twice, cached after GetN, after serving another tenant, on a second instance) and 24 series through GetN. "+
+		"override sizes from {1, n, n+1}) x zone awareness on/off x RF 1..%d x cache sizes %v; per configuration one tenant per way the override list can treat it (of %q), each observed 4 times with a cache of one entry (computed, cached after GetN, after another tenant was served = evicted and recomputed, on a second instance; once more with the default cache) and 24 series through GetN. "+
 		"Non-trivial = (configuration, tenant) pairs whose shard is a proper subset of the nodes. "+
 		"(2) positions of the draws: the same ring over a base ketama ring with %v sections per node: every multiset of <= 3 zone sizes with %d..%d nodes x shard size 1..n (zone-aware: one size per distinct per-zone take, up to take = zone size) x zone awareness on/off x RF 1..%d x tenants t0..t%d, "+
 		"each observed 3 times (computed, cached after GetN, second instance) and 8 series through GetN. Non-trivial = (configuration, tenant) pairs in which a draw landed after the last section of every not yet selected node of its zone "+
@@ -588,7 +611,7 @@ func TestCheck(t *testing.T) {
 		"family (2) builds the shuffle-sharded ring with newKetamaHashring(endpoints, 1..3, rf) + newShuffleShardHashring as newHashring does with 1000 sections per node; the tenant's sub-ring is still built by the real getTenantShard")
 	k := &checker{r: r, gapSeen: map[string]struct{}{}, gapTotal: map[string]int{}}
 	all := func(yield func(Case) bool) {
-		for c := range genSmall(minN, sMaxN, sMaxRF, spns, nTen) {
+		for c := range genSmall(minN, sMaxN, sMaxRF, spns, nTen, allZAD) {
 			if !yield(c) {
 				return
 			}
